@@ -212,7 +212,7 @@ def r3(ctx):
             if f.mod.startswith("batchie.cli.") and f.name == "main":
                 env = {k: x for k, x in single_defs(f.node).items() if k != "args"}
                 v = inline(val, env) if val is not None else None
-                ok = v is not None and isinstance(v, ast.Call) and U(v.func) == "get_prng_from_seed_argument" and U(v.args[0]) == "args"
+                ok = v is not None and isinstance(v, ast.Call) and U(v.func) == "get_prng_from_seed_argument" and [U(a_) for a_ in list(v.args) + [k_.value for k_ in v.keywords]] == ["args"]
                 ctx.check("R3", site, ok, "generator derives from get_prng_from_seed_argument(args)",
                           f"the command passes rng=`{U(v)[:60]}` which does not derive from --seed")
             else:
